@@ -4,6 +4,15 @@
 #   monitor   (n quick, n thorough) for the Go monitor of the same id, or None
 #   level     evidence level
 PROPS = {
+    "C06": {
+        "module": "PsVerif.Props.C06",
+        "slices": [("absC06", 300, 6000)],
+        "monitor": (400, 8000),
+        "technique": "Lean 4: kernel-certified inductive reachable set (decide +kernel on a closedness certificate) of an abstract engine interpreting the GENERATED state tables, lifted to all histories by induction; trace-inclusion correspondence against the real state machines under crash/fault scenarios; Go monitor on the payment table",
+        "text": "PARTIAL proof: for both taker roles and every history (any events in any order, crashes at persisted points, restarts, pending HTLCs resolving) in which every pay error is definitive and no crash falls between the start of a payment and the next persist, the key is never revealed while the claim payment succeeded or is outstanding, and once paid the swap only tries to claim. The full statement is false on this tree (two design-level known findings, each with a Lean witness history and a replay on the real code); two further violations were repaired by fix: commits. The tables are regenerated from the running code each run, so a table edit re-runs the kernel check.",
+        "note": "Trusted: Lean kernel (decide +kernel, axioms propext only); hand-written action summaries (Model/AbsC06.lean) tied by trace inclusion on generated scenarios only; ValidateTx deterministic; simulated Lightning back-end (union of LND-like refusal and CLN-like idempotent repay); bbolt atomic.",
+        "design_ref": "DESIGN.md §4 C06",
+    },
     "C24": {
         "module": "PsVerif.Props.C24",
         "slices": [("route", 4000, 200000)],
